@@ -272,7 +272,7 @@ def check_case(case):
 def cases(ctx):
     thorough = ctx.thorough
     for code in gen.rotate(gen.LEAF_CODES, ctx.seed):
-        counts = gen.boundary_counts(code, (0xFF, 0xFFFF) if thorough else (0xFF,))
+        counts = gen.boundary_counts(code, (0xFF, 0xFFFF))
         for d in gen.leaf_family(code, counts):
             yield {"kind": "leaf", "desc": d}
             yield {"kind": "decode", "desc": d}
